@@ -112,6 +112,8 @@ def fresh_arr(prefix='a'):
 # ------------------------------------------------------------------------------------------------ solving
 
 Z3_TIMEOUT_MS = int(os.environ.get('PYVC_Z3_MS', '45000'))
+Z3_FIRST_MS = int(os.environ.get('PYVC_Z3_FIRST_MS', '6000'))
+CVC5_QUICK_S = int(os.environ.get('PYVC_CVC5_QUICK_S', '8'))
 CVC5_TIMEOUT_S = int(os.environ.get('PYVC_CVC5_S', '90'))
 CVC5 = '/usr/bin/cvc5'
 
@@ -148,7 +150,7 @@ def run_cvc5(text, timeout_s=None):
         os.unlink(path)
 
 
-def prove(hyps, goal, timeout_ms=None, use_cvc5=True, both=False):
+def prove(hyps, goal, timeout_ms=None, use_cvc5=True, both=False, cvc5_first=False):
     """Is (/\\ hyps) => goal valid?  status: 'unsat' (discharged) | 'sat' (refuted; model attached) | 'unknown'."""
     t0 = time.time()
     if is_false(simplify(goal)):
@@ -174,12 +176,33 @@ def prove(hyps, goal, timeout_ms=None, use_cvc5=True, both=False):
         return Result('sat', 'z3-%s' % z3.get_version_string(), time.time() - t0,
                       model=(s0.model() if r0 == sat else None),
                       detail='the obligation is false on a path that the solver could not refute (%s)' % (why or 'sat'))
+    if cvc5_first and use_cvc5 and os.path.exists(CVC5) and not is_false(simplify(goal)):
+        c = run_cvc5(_smt2(hyps, goal))
+        if c == 'unsat':
+            return Result('unsat', 'cvc5-1.0.3', time.time() - t0, detail='cvc5 asked first')
+    budget = timeout_ms or Z3_TIMEOUT_MS
+    first = min(budget, Z3_FIRST_MS)
+    asked_cvc5 = False
     s = Solver()
-    s.set('timeout', timeout_ms or Z3_TIMEOUT_MS)
+    s.set('timeout', first)
     for h in hyps:
         s.add(h)
     s.add(Not(goal))
     r = s.check()
+    if r == unknown and first < budget:
+        # staged: a short z3 attempt, then cvc5 (which decides many quantifier alternations at once), then z3 with the full budget
+        if use_cvc5 and os.path.exists(CVC5) and not cvc5_first:
+            c = run_cvc5(_smt2(hyps, goal), timeout_s=CVC5_QUICK_S)
+            if c == 'unsat':
+                return Result('unsat', 'cvc5-1.0.3', time.time() - t0, detail='after a short z3 attempt')
+            if c == 'sat':
+                return Result('sat', 'cvc5-1.0.3', time.time() - t0, detail='cvc5 sat (no model extracted)')
+        s = Solver()
+        s.set('timeout', budget)
+        for h in hyps:
+            s.add(h)
+        s.add(Not(goal))
+        r = s.check()
     if os.environ.get('PYVC_STATS'):
         try:
             st = s.statistics()
@@ -198,7 +221,7 @@ def prove(hyps, goal, timeout_ms=None, use_cvc5=True, both=False):
         return res
     if r == sat:
         return Result('sat', 'z3-%s' % z3.get_version_string(), time.time() - t0, model=s.model())
-    if use_cvc5 and os.path.exists(CVC5):
+    if use_cvc5 and os.path.exists(CVC5) and not asked_cvc5:
         c = run_cvc5(_smt2(hyps, goal))
         if c == 'unsat':
             return Result('unsat', 'cvc5-1.0.3', time.time() - t0)
